@@ -1,11 +1,11 @@
 (* Properties_C06.v -- C06: every relaxation sweep equals its mathematical definition.
    Statements only; proofs live in RelaxProofs.v, ChebyProofs.v, IluProofs.v, Ilu0Exact.v,
-   IluRefute.v.
+   IluExactSolve.v, IluRefute.v.
    "field": for every field with decidable equality (Section hypotheses), closed at Qc.
    Dense semantics: mget A i j (duplicate entries add), Ax A x i = sum_j A_ij x_j. *)
 From Coq Require Import QArith_base.
 From Amgcl Require Import Scalar QcInst Vec Crs Kernels KernelsProofs MatOps Relax RelaxProofs
-  Ilu IluProofs Ilu0Exact IluRefute Cheby ChebyProofs.
+  Ilu IluProofs Ilu0Exact IluExactSolve IluRefute Cheby ChebyProofs.
 Local Close Scope Q_scope.
 Local Open Scope S_scope.
 
@@ -139,6 +139,23 @@ Theorem C06_ilu0_solve (A : crs S) (junk : vec S) (L U : crs S) (D b : vec S) :
      vget D i * (vget (lsolve L b) i - sumn (fun j => mget U i j * vget (ilu_solve L U D b) j) (nrows A))).
 Proof. exact (ilu0_solve_spec (F_R Sft) A junk L U D b). Qed.
 
+(* "exact inverse whenever the exact factors fit": if (I+L)(U+D^-1) = A entry-wise (pattern closed
+   under elimination: tridiagonal, arrow, ...), the triangular solve solves A x = b *)
+Theorem C06_ilu_exact_solve (A L U : crs S) (D b : vec S) :
+  strict_lower L -> strict_upper (nrows L) U -> length b = nrows L -> ncols A = nrows L ->
+  (forall i, i < nrows L -> vget D i <> s0) ->
+  (forall i j, i < nrows L -> j < nrows L -> lu_entry L U D i j = mget A i j) ->
+  forall i, i < nrows L -> Ax A (ilu_solve L U D b) i = vget b i.
+Proof. exact (ilu_exact_solve Sft A L U D b). Qed.
+
+Theorem C06_ilu0_exact_solve (A : crs S) (junk : vec S) (L U : crs S) (D b x0 : vec S) :
+  ilu0 A junk = Ok (L, U, D) -> wf A = true -> ncols A = nrows A ->
+  length b = nrows A -> length x0 = nrows A ->
+  (forall i, i < nrows A -> vget D i <> s0) ->
+  (forall i j, i < nrows A -> j < nrows A -> lu_entry L U D i j = mget A i j) ->
+  forall i, i < nrows A -> Ax A (ilu_apply L U D b x0) i = vget b i.
+Proof. exact (ilu0_exact_solve Sft A junk L U D b x0). Qed.
+
 (* ILUP = ILU(0) on P = ilup_matrix k A (pattern of A^(k+1) filled with the values of A).
    FULL STATEMENT (unproved) of the symbolic-product part: see IluRefute.v. *)
 Theorem C06_ilup_exact_on_pattern (k : nat) (A : crs S) (junk : vec S) (L U : crs S) (D : vec S) :
@@ -199,6 +216,8 @@ Print Assumptions C06_ilu_solve_linear.
 Print Assumptions C06_ilu_sweep_fixed_point.
 Print Assumptions C06_ilu0_exact_on_pattern.
 Print Assumptions C06_ilu0_solve.
+Print Assumptions C06_ilu_exact_solve.
+Print Assumptions C06_ilu0_exact_solve.
 Print Assumptions C06_ilup_exact_on_pattern.
 Print Assumptions C06_cheby_fixed_point.
 Print Assumptions C06_cheby_linear.
